@@ -299,6 +299,11 @@ def strip_names(x, names):
     return s
 
 
+# quick tier: the configuration variants are combined with pairs over these core atoms only (errors, shared list + raises, tags,
+# examples, component prefix, docstring params, servers / security, explicit schemas, enum + context)
+QUICK_PAIR_ATOMS = (2, 4, 5, 6, 7, 8, 10, 11, 12)
+
+
 def gen_cases(ctx):
     core = list(range(len(CORE)))
     kmax = ctx.pick(2, 3)
@@ -324,6 +329,8 @@ def gen_cases(ctx):
                     for idx in itertools.permutations(core, k):
                         if k == 2 and stack == 'docstring':
                             continue
+                        if k == 2 and ctx.quick and not (idx[0] in QUICK_PAIR_ATOMS and idx[1] in QUICK_PAIR_ATOMS):
+                            continue
                         yield dict(set='core', atoms=idx, stack=stack, kind=kind, prefix='', variant=variant)
     # ONE specification object (and its extractors) used for a sequence of different registries: A, B, A again
     for stack in ('pydantic', 'docstring', 'docstring+pydantic'):
@@ -341,6 +348,8 @@ def gen_cases(ctx):
     for stack in ('pydantic', 'docstring+pydantic'):
         for kind in ('openapi-3.1', 'openapi-3.0'):
             for idx in itertools.permutations(core, 2):
+                if ctx.quick and not (idx[0] in QUICK_PAIR_ATOMS and idx[1] in QUICK_PAIR_ATOMS):
+                    continue
                 yield dict(set='core', atoms=idx, stack=stack, kind=kind, prefix='multi')
     for integration in ('aiohttp', 'flask'):
         for base in ('/api', '/api/v1', '/rpc'):
